@@ -1107,7 +1107,7 @@ def _check_epw(inp):
                 got = open(out).read()
                 os.remove(out)
                 want = w.header + ''.join(
-                    '%d %d %.3f %d %d\n' % (rows[h][0], rows[h][1], rows[h][2] - 1 + 0.5, rows[h][3], rows[h][4]) for h in hoys)
+                    '%d %d %.3f %d %d\n' % (rows[h][0], rows[h][1], rows[h][2] - 1 + 0.5, c1[h], c2[h]) for h in hoys)
                 if got != want:
                     return {'required': 'lines of the requested hours', 'observed': _first_diff(want.split('\n'), got.split('\n')),
                             'sig': dict(sig, what='to_wea hoys')}
